@@ -211,6 +211,17 @@ def t_process_batch(E, cancellable=False):
         def call_user(E_, fobj, args, kwargs, node):
             if fobj is st['func']:
                 st['func_args'] = args
+                # an async generator function only starts running at its first step; a plain callable that returns
+                # the result stream may well raise right here (it validates its batch): an exception raised by the
+                # batch function like any other
+                if E.choose([('stream', None), ('raises_when_called', None)], 'batch function call') != 'stream':
+                    c = E.fresh('batch_exc', ClsS)
+                    E.need_hierarchy()
+                    E.assume(sub(c, EXC['Exception'].term))
+                    ex = VExc(c, (), info={'origin': 'batch-function'})
+                    st['batch_exc'] = val_of_exc(E, ex)
+                    st['raised_at_call_in_sem'] = bool(st.get('in_sem'))
+                    raise PyExc(ex)
                 return Obj('UserStream')
             return None
         Bn['__call__'] = call_user
@@ -481,6 +492,12 @@ def t_get_next_batch(E):
         def wait_for_get(v, node):
             """wait_for(q.get(), T) (CPython 3.12: completes in the step the getter is resolved): the item if
             it arrives within T, TimeoutError exactly at now + T otherwise."""
+            if isinstance(v.fields['timeout'], VNone):
+                E.oblige(Qn + '/timeout.the_wait_for_more_items_has_a_time_limit', z3.BoolVal(False),
+                         props={'C10', 'C04', 'C15'},
+                         detail='wait_for(q.get(), None) waits for ever: an incomplete batch is never closed (e.g. '
+                                '`batch_timeout or None` for batch_timeout=0)')
+                raise PathEnd()
             inner, T = v.fields['inner'], _real(v.fields['timeout'])
             if not (isinstance(inner, Obj) and inner.cls == 'Awaitable' and inner.fields['kind'] == 'q_get'):
                 raise Unsupported('wait_for of %r' % (inner,), node)
